@@ -222,14 +222,20 @@ impl<K> Policy<K> {
     ) where
         K: std::hash::Hash + Eq + Clone,
     {
-        while self.lru.pinned_len() > 0 {
+        // every parked key is looked at once per round: stopping at the first
+        // one that is still pinned would let the released ones behind it pile
+        // up (one round parks up to a whole batch, but got past one pin only)
+        let mut to_examine = self.lru.pinned_len();
+
+        while to_examine > 0 && self.lru.pinned_len() > 0 {
+            to_examine -= 1;
+
             let key = self.lru.peek_least_recent(lru::Region::Pinned).unwrap();
 
             if remove(key) {
                 self.lru.pop_least_recent(lru::Region::Pinned);
             } else {
                 self.lru.shuffle_tail_to_head(lru::Region::Pinned);
-                break;
             }
         }
     }
